@@ -276,6 +276,10 @@ Definition to_str (v : value) : bytes :=
 
 (* ---------------------------------------------------------------------------------------- *)
 (* Variant::operator== (coercing, asymmetrical); None = an undefined cast would be executed  *)
+(* Total reference function.  It FOLLOWS THE CODE where the property text is silent (maps compare  *)
+(* position by position, so the same entries in another insertion order are unequal; a string is  *)
+(* converted to the scalar's type even when that type cannot hold its value): veq_pinned below    *)
+(* says where the text decides, and only there is veq part of the property oracle.                *)
 (* ---------------------------------------------------------------------------------------- *)
 
 Definition is_null (v : value) : bool := match v with VS SNull => true | _ => false end.
